@@ -138,6 +138,10 @@ impl<'a, 'b> G<'a, 'b> {
             out.push_str(&self.pragma_comment());
             out.push('\n');
         }
+        if self.c.chance(1, 10) {
+            self.f.ctx("module-directive-prologue");
+            out.push_str("\"use client\";\n");
+        }
         out.push_str(
             "import { a, b, x, y, o, f, g, xs, p, q, m, sl, C, D, NS } from \"env\";\n",
         );
@@ -352,6 +356,12 @@ impl<'a, 'b> G<'a, 'b> {
     fn block(&mut self, depth: usize) -> String {
         let n = self.c.range(1, 3);
         let mut s = String::from("{\n");
+        if self.c.chance(1, 8) {
+            // directive prologue: whatever the transform adds must come after it
+            self.f.ctx("directive-prologue");
+            // (not "use strict": illegal in a function with a non-simple parameter list)
+            s.push_str(self.c.choose(&["  \"use memo\";\n", "  'worklet';\n", "  \"use server\";\n  \"use asm\";\n"]));
+        }
         for _ in 0..n {
             let st = self.stmt(depth);
             s.push_str("  ");
